@@ -206,8 +206,9 @@ def variable_to_string(variable_type, var_value):
             # and has no (working) len(), so it is rendered like any other object
             pass
     try:
-        # everything else just gets a string value
-        return str(var_value)
+        # everything else just gets a string value (as a plain str: a subclass handed back by a custom __str__ would run
+        # application code again when the value is measured, cut and sent)
+        return str.__str__(str(var_value))
     except BaseException:
         # it is possible for str to fail if there is a custom __str__ function
         return f'{type(var_value)}@{id(var_value)}'
@@ -402,10 +403,11 @@ def key_name(key) -> str:
     :param key: the dictionary key
     :return: the key as text
     """
-    if isinstance(key, str):
+    if type(key) is str:
         return key
     try:
-        return str(key)
+        # a plain str, also for keys that are instances of a str subclass
+        return str.__str__(str(key))
     except BaseException:
         return f'{type(key)}@{id(key)}'
 
